@@ -24,8 +24,17 @@
    Header hashes of blocks that ARE on the chain are abbreviated "HH<h>" (hash-consing,
    keeps terms short); every other header hashes to its full term.
 
-   The spec models the code AS REPAIRED by /verif/proposed-fixes/C20-*.diff; the
-   behaviour of the unrepaired v0.34.24 code is kept as Weak_* switches.            *)
+   The spec models the code AS REPAIRED by /verif/proposed-fixes/C20-light-rpc-binding.diff
+   (BlockResults preimage + height, Tx bound to its proof, complete BlockID and LastCommit
+   binding in Block/BlockByHash/BlockchainInfo, key path for absence proofs); the behaviour of
+   the unrepaired v0.34.24 code is kept as Weak_* switches (marked "(v0.34.24)").
+   Two bindings cannot be repaired in light/rpc and are known findings: ConsistentStrict
+   demands them, Consistent does not (Tx.TxResult vs LastResultsHash; Validator.Address vs
+   PubKey).  Deliberate deviations of the code are modelled as such and named where they
+   occur: BlockchainInfo advances the light client only to the lowest returned height (honest
+   multi-height answers are rejected by a light client that has not seen the higher heights --
+   outside the statement's list, reported as an observation); a malformed commit block id
+   served by the primary makes the light client PANIC (LCVerify "lc:panic").             *)
 EXTENDS Integers, Sequences, FiniteSets, TLC
 
 CONSTANTS
